@@ -26,14 +26,13 @@ theorem dec_of_sel {s σ xs : Fp} (hs : s ^ 2 * (1 + σ) = 1 - σ) (hσ : 1 + σ
     rw [hvdef]
     linear_combination (-d * ((1 - s ^ 2) * (1 + σ) + 2 * σ)) * hu1 - ((1 + s ^ 2) * (1 + σ) + 2) * hu2
   have hcur : xs ^ 2 * (-(1 + d * σ ^ 2)) = s ^ 2 * (1 + σ) ^ 2 := by
-    linear_combination hc + (1 + σ) * hs
+    linear_combination hc - (1 + σ) * hs
   -- the radicand is the square of `4 s / (x* (1+σ))`
   have hrad : decV s * (1 + s ^ 2) ^ 2 * (xs * (1 + σ)) ^ 2 = (4 * s) ^ 2 := by
     have h1 : decV s * (1 + s ^ 2) ^ 2 * (xs * (1 + σ)) ^ 2 * (1 + σ) ^ 2
         = (4 * s) ^ 2 * (1 + σ) ^ 2 := by
       linear_combination (xs ^ 2 * ((1 + s ^ 2) * (1 + σ)) ^ 2) * hv
-        + (decV s * xs ^ 2 * (1 + σ) ^ 2 * ((1 + s ^ 2) * (1 + σ) + 2) * 0
-          + (-4 * (1 + d * σ ^ 2)) * xs ^ 2 * ((1 + s ^ 2) * (1 + σ) + 2)) * hu2
+        + ((-4 * (1 + d * σ ^ 2)) * xs ^ 2 * ((1 + s ^ 2) * (1 + σ) + 2)) * hu2
         + 16 * hcur
     exact mul_right_cancel₀ (pow_ne_zero 2 hσ) h1
   have hden : xs * (1 + σ) ≠ 0 := mul_ne_zero hxs0 hσ
@@ -65,5 +64,221 @@ theorem dec_of_sel {s σ xs : Fp} (hs : s ^ 2 * (1 + σ) = 1 - σ) (hσ : 1 + σ
     rw [hy]
     apply mul_right_cancel₀ hσ
     linear_combination hu1 - σ * hu2
+
+/-! ## The selected representative lies in the coset -/
+
+theorem selY_sq_ne_zero {x y : Fp} (hc : onCurve d x y) (hxy : x * y ≠ 0) :
+    (1 + selY x y) * (1 - selY x y) ≠ 0 := by
+  have hw0 := (encW_ne_zero_iff hc).2 hxy
+  have hrot := curve_rot hc
+  have hy2 : 1 - y ^ 2 ≠ 0 := by
+    intro h'; apply hw0; unfold encW; rw [h']; ring
+  rw [selY_sq]
+  split
+  · intro h
+    have : (1 - y ^ 2) * (1 + x ^ 2) = 0 := by rw [h, mul_zero]
+    rw [hrot] at this
+    have h3 : (-1 - d) * (x * y) ^ 2 = 0 := by linear_combination this
+    rcases mul_eq_zero.1 h3 with h' | h'
+    · exact d_ne_neg_one (by linear_combination -h')
+    · exact hxy ((pow_eq_zero_iff two_ne_zero).1 h')
+  · exact hy2
+
+/-- the representative `(x*, y*)` selected by ENCODE is `P + T4` for a `T4 ∈ E[4]`, and `x* y* ≥ 0` -/
+theorem sel_in_coset (P : Ed) (hxy : P.x * P.y ≠ 0) :
+    ∃ T4 : Ed, IsE4 T4 ∧ (P + T4).x = fpAbs (selX1 P.x P.y) ∧ (P + T4).y = selY P.x P.y ∧
+      ¬ fpIsNeg ((P + T4).x * (P + T4).y) := by
+  have hi := Dalek.FieldFacts.sqrtM1_sq
+  by_cases hr : fpIsNeg (P.x * P.y)
+  · have hx1 : selX1 P.x P.y = sqrtM1 * P.y := by unfold selX1; rw [if_pos hr]
+    have hy1 : selY1 P.x P.y = sqrtM1 * P.x := by unfold selY1; rw [if_pos hr]
+    have hprod : ¬ fpIsNeg (sqrtM1 * P.y * (sqrtM1 * P.x)) := by
+      have : sqrtM1 * P.y * (sqrtM1 * P.x) = -(P.x * P.y) := by linear_combination (P.x * P.y) * hi
+      rw [this, fpIsNeg_neg hxy]; exact not_not.2 hr
+    unfold selY; rw [hx1, hy1]
+    by_cases hn : fpIsNeg (sqrtM1 * P.y)
+    · obtain ⟨h1, h2⟩ := add_neg_tors4 P
+      refine ⟨-tors4, Or.inr (Or.inr (Or.inr rfl)), ?_, ?_, ?_⟩
+      · rw [h1, fpAbs_of_neg hn]
+      · rw [h2, if_pos hn]
+      · rw [h1, h2, neg_mul_neg]; exact hprod
+    · obtain ⟨h1, h2⟩ := add_tors4 P
+      refine ⟨tors4, Or.inr (Or.inr (Or.inl rfl)), ?_, ?_, ?_⟩
+      · rw [h1, fpAbs_of_not_neg hn]
+      · rw [h2, if_neg hn]
+      · rw [h1, h2]; exact hprod
+  · have hx1 : selX1 P.x P.y = P.x := by unfold selX1; rw [if_neg hr]
+    have hy1 : selY1 P.x P.y = P.y := by unfold selY1; rw [if_neg hr]
+    unfold selY; rw [hx1, hy1]
+    by_cases hn : fpIsNeg P.x
+    · obtain ⟨h1, h2⟩ := add_tors2 P
+      refine ⟨tors2, Or.inr (Or.inl rfl), ?_, ?_, ?_⟩
+      · rw [h1, fpAbs_of_neg hn]
+      · rw [h2, if_pos hn]
+      · rw [h1, h2, neg_mul_neg]; exact hr
+    · refine ⟨0, Or.inl rfl, ?_, ?_, ?_⟩
+      · rw [add_zero, fpAbs_of_not_neg hn]
+      · rw [add_zero, if_neg hn]
+      · rw [add_zero]; exact hr
+
+theorem isE4_of_mul_eq_zero (P : Ed) (h : P.x * P.y = 0) : IsE4 P := by
+  have hon : -P.x ^ 2 + P.y ^ 2 = 1 + d * P.x ^ 2 * P.y ^ 2 := P.on
+  rcases mul_eq_zero.1 h with h0 | h0
+  · rw [h0] at hon
+    have hy : (P.y - 1) * (P.y + 1) = 0 := by linear_combination hon
+    rcases mul_eq_zero.1 hy with h' | h'
+    · left; ext
+      · exact h0
+      · show P.y = 1; linear_combination h'
+    · right; left; ext
+      · exact h0
+      · show P.y = -1; linear_combination h'
+  · rw [h0] at hon
+    have hx2 : (P.x - sqrtM1) * (P.x + sqrtM1) = 0 := by
+      linear_combination (-1 : Fp) * hon - Dalek.FieldFacts.sqrtM1_sq
+    rcases mul_eq_zero.1 hx2 with h' | h'
+    · right; right; left; ext
+      · show P.x = sqrtM1; linear_combination h'
+      · exact h0
+    · right; right; right; ext
+      · show P.x = -sqrtM1; linear_combination h'
+      · exact h0
+
+theorem isE4_neg {T : Ed} (h : IsE4 T) : IsE4 (-T) := by
+  rw [isE4_iff] at h ⊢; rw [smul_neg, h, neg_zero]
+
+/-- `step_2` accepts `s = 0` and returns the identity -/
+theorem dec_identity {s : Fp} (hs0 : s = 0) : (decI s).1 = 1 ∧ decX s = 0 ∧ decY s = 1 := by
+  have hm := magic_sq
+  have hrad : decV s * (1 + s ^ 2) ^ 2 = -1 - d := by
+    have hvdef : decV s = -d * (1 - s ^ 2) ^ 2 - (1 + s ^ 2) ^ 2 := rfl
+    rw [hvdef, hs0]; ring
+  have hrad0 : decV s * (1 + s ^ 2) ^ 2 ≠ 0 := by
+    rw [hrad]; intro h; exact d_ne_neg_one (by linear_combination -h)
+  have hsq : IsSquare (1 / (decV s * (1 + s ^ 2) ^ 2)) := by
+    rw [hrad]
+    refine ⟨invSqrtAmD, ?_⟩
+    rw [div_eq_iff (by intro h; exact d_ne_neg_one (by linear_combination -h))]
+    linear_combination -hm
+  have hok : (decI s).1 = 1 := ((sqrtRatioFp_spec 1 _).2.2.1 hrad0 hsq).1
+  exact ⟨hok, dec_zero hs0 hok⟩
+
+/-- **`DECODE ∘ ENCODE` in the field.**  For a valid extended point of `P` with `(1−y²)x²y²` a square (every point
+of the even subgroup), `step_2` accepts the `s` computed by `compress` (which is non-negative), passes the `t ≥ 0`
+and `y ≠ 0` checks, and returns the point `P + T4` of the same coset (`T4 ∈ E[4]`). -/
+theorem dec_enc {P : Ed} {X Y Z T : Fp} (hP : RepExt P X Y Z T) (hsq : IsSquare (encW P.x P.y)) :
+    ∃ T4 : Ed, IsE4 T4 ∧ (decI (encS X Y Z T)).1 = 1 ∧ decX (encS X Y Z T) = (P + T4).x ∧
+      decY (encS X Y Z T) = (P + T4).y ∧ ¬ fpIsNeg (decT (encS X Y Z T)) ∧ decY (encS X Y Z T) ≠ 0 := by
+  obtain ⟨hX, hY, hTT⟩ := repExt_coords hP
+  by_cases hxy : P.x * P.y = 0
+  · have hs0 : encS X Y Z T = 0 :=
+      encS_of_mul_eq_zero Z T (by rw [hX, hY]; linear_combination (Z ^ 2) * hxy)
+    obtain ⟨hok, hx, hy⟩ := dec_identity hs0
+    refine ⟨-P, isE4_neg (isE4_of_mul_eq_zero P hxy), hok, ?_, ?_, ?_, ?_⟩
+    · rw [hx, add_neg_cancel]; rfl
+    · rw [hy, add_neg_cancel]; rfl
+    · unfold decT; rw [hx, zero_mul]; exact not_fpIsNeg_zero
+    · rw [hy]; exact one_ne_zero
+  · have hc : onCurve d P.x P.y := P.on
+    have e1 := encS_sq hP.1 hc ((encW_ne_zero_iff hc).2 hxy) hsq
+    rw [← hX, ← hY, ← hTT] at e1
+    have hσ := one_add_selY_ne_zero hc hxy
+    have hσ2 := selY_sq_ne_zero hc hxy
+    obtain ⟨T4, hT4, hqx, hqy, hqt⟩ := sel_in_coset P hxy
+    obtain ⟨hxy', -, -⟩ := coset_data hT4 rfl hxy hsq
+    have hcq : onCurve d (P + T4).x (P + T4).y := (P + T4).on
+    have hs0 : encS X Y Z T ≠ 0 := by
+      intro h0
+      rw [h0] at e1
+      apply hσ2
+      have : 1 - selY P.x P.y = 0 := by linear_combination -e1
+      rw [this, mul_zero]
+    have hxs0 : (P + T4).x ≠ 0 := left_ne_zero_of_mul hxy'
+    have hxsnn : ¬ fpIsNeg (P + T4).x := by rw [hqx]; exact not_fpIsNeg_fpAbs _
+    rw [← hqy] at e1 hσ
+    obtain ⟨hok, hx, hy⟩ := dec_of_sel e1 hσ hcq hxs0 hxsnn hs0
+    refine ⟨T4, hT4, hok, hx, hy, ?_, ?_⟩
+    · unfold decT; rw [hx, hy]; exact hqt
+    · rw [hy]; exact right_ne_zero_of_mul hxy'
+
+/-! ## On the executable specification -/
+
+theorem isNeg_sEncS (x y z t : Nat) : isNeg (sEncS x y z t) = false := by
+  unfold sEncS; exact Bridge.isNeg_fabs _
+
+/-- **`DECODE ∘ ENCODE`**: the encoding of (any extended representation of) a point `Q` of the even subgroup is
+accepted by DECODE, which returns a canonical point of the coset `Q + E[4]`. -/
+theorem decode_encodeExt_sq {x y z t : Nat} {Q : Ed} (h : RepExt Q (x : Fp) (y : Fp) (z : Fp) (t : Fp))
+    (hsq : IsSquare (encW Q.x Q.y)) :
+    ∃ (p : Pt) (T4 : Ed), Ristretto.decode (Ristretto.encodeExt x y z t) = some p ∧ 4 • T4 = 0 ∧
+      Rep p (Q + T4) ∧ Canon p := by
+  obtain ⟨T4, hT4, hok, hx, hy, ht, hy0⟩ := dec_enc h hsq
+  rw [encodeExt_unfold]
+  rw [← cast_sEncS] at hok hx hy ht hy0
+  have hn := sEncS_lt x y z t
+  have hneg := isNeg_sEncS x y z t
+  generalize sEncS x y z t = n at *
+  refine ⟨⟨sDecX n, sDecY n⟩, T4, ?_, (isE4_iff T4).1 hT4, ⟨by rw [← hx]; exact cast_sDecX n,
+    by rw [← hy]; exact cast_sDecY n⟩, ⟨sDecX_lt n, sDecY_lt n⟩⟩
+  rw [decode_unfold]
+  have hlen : (feToBytes n).length = 32 := Bridge.feToBytes_length n
+  have hle : leToNat (feToBytes n) = n := by rw [Bridge.leToNat_feToBytes, Nat.mod_eq_of_lt hn]
+  rw [hle]
+  have c1 : ((feToBytes n).length != 32) = false := by rw [hlen]; rfl
+  have c2 : decide (n ≥ P) = false := by rw [decide_eq_false_iff_not]; omega
+  have c3 : (sqrtRatioM1 1 (sDecW n)).1 = true := by
+    rw [decI_cast, sqrtRatioFp_cast] at hok
+    dsimp only at hok
+    exact c2f_eq_one_iff.1 hok
+  have c4 : isNeg (fmul (sDecX n) (sDecY n)) = false := by
+    rw [← Bool.not_eq_true, isNeg_eq_fp, Bridge.cast_fmul, cast_sDecX, cast_sDecY]; exact ht
+  have c5 : (sDecY n == 0) = false := by
+    rw [beq_eq_false_iff_ne]
+    intro h0; apply hy0; rw [← cast_sDecY, h0]; exact Nat.cast_zero
+  simp only [c1, c2, hneg, c3, c4, c5, Bool.or_self, Bool.not_true, Bool.false_eq_true, if_false]
+
+theorem decode_encodeExt {x y z t : Nat} {Q : Ed} (h : RepExt Q (x : Fp) (y : Fp) (z : Fp) (t : Fp))
+    (heven : ∃ R : Ed, Q = 2 • R) :
+    ∃ (p : Pt) (T4 : Ed), Ristretto.decode (Ristretto.encodeExt x y z t) = some p ∧ 4 • T4 = 0 ∧
+      Rep p (Q + T4) ∧ Canon p := by
+  obtain ⟨R, rfl⟩ := heven
+  exact decode_encodeExt_sq h (isSquare_encW_even R)
+
+/-- **ENCODE is injective on cosets**: two points (with square `w`) with the same encoding differ by an element of
+`E[4]` (different elements of the group encode differently). -/
+theorem encodeExt_injective_sq {x y z t x' y' z' t' : Nat} {Q Q' : Ed}
+    (h : RepExt Q (x : Fp) (y : Fp) (z : Fp) (t : Fp)) (h' : RepExt Q' (x' : Fp) (y' : Fp) (z' : Fp) (t' : Fp))
+    (hsq : IsSquare (encW Q.x Q.y)) (hsq' : IsSquare (encW Q'.x Q'.y))
+    (henc : Ristretto.encodeExt x y z t = Ristretto.encodeExt x' y' z' t') :
+    ∃ T4 : Ed, 4 • T4 = 0 ∧ Q' = Q + T4 := by
+  obtain ⟨p, T, hd, hT, hp, hcp⟩ := decode_encodeExt_sq h hsq
+  obtain ⟨p', T', hd', hT', hp', hcp'⟩ := decode_encodeExt_sq h' hsq'
+  rw [henc, hd'] at hd
+  have hpp : p' = p := Option.some.inj hd
+  subst hpp
+  have hQ : Q + T = Q' + T' := by
+    ext
+    · rw [← hp.1, ← hp'.1]
+    · rw [← hp.2, ← hp'.2]
+  refine ⟨T - T', by rw [smul_sub, hT, hT', sub_zero], ?_⟩
+  rw [← add_sub_assoc, hQ, add_sub_cancel_right]
+
+theorem encodeExt_injective {x y z t x' y' z' t' : Nat} {Q Q' : Ed}
+    (h : RepExt Q (x : Fp) (y : Fp) (z : Fp) (t : Fp)) (h' : RepExt Q' (x' : Fp) (y' : Fp) (z' : Fp) (t' : Fp))
+    (heven : ∃ R : Ed, Q = 2 • R) (heven' : ∃ R : Ed, Q' = 2 • R)
+    (henc : Ristretto.encodeExt x y z t = Ristretto.encodeExt x' y' z' t') :
+    ∃ T4 : Ed, 4 • T4 = 0 ∧ Q' = Q + T4 := by
+  obtain ⟨R, rfl⟩ := heven
+  obtain ⟨R', rfl⟩ := heven'
+  exact encodeExt_injective_sq h h' (isSquare_encW_even R) (isSquare_encW_even R') henc
+
+/-- decoded points have a square `w = (1−y²)x²y²` (`1 − y² = (2s/(1+s²))²`) -/
+theorem dec_encW_square {s : Fp} (hok : (decI s).1 = 1) : IsSquare (encW (decX s) (decY s)) := by
+  obtain ⟨-, -, hy⟩ := dec_facts hok
+  obtain ⟨-, hu2, -⟩ := dec_ne_zero hok
+  refine ⟨2 * s * decX s * decY s / (1 + s ^ 2), ?_⟩
+  rw [div_mul_div_comm, eq_div_iff (mul_ne_zero hu2 hu2)]
+  unfold encW
+  linear_combination (-(decX s ^ 2 * decY s ^ 2) * (decY s * (1 + s ^ 2) + (1 - s ^ 2))) * hy
 
 end Dalek.Proofs.Ris
